@@ -216,7 +216,7 @@ Section Crypto.
             (ozget (p_seq pb) =? to_u64 sq) &&
             match get_int kTTL (r_node r) with
             | None => false
-            | Some tt => ozget (p_ttl pb) =? to_u64 tt
+            | Some tl => ozget (p_ttl pb) =? to_u64 tl
             end
           end
         end
@@ -272,7 +272,9 @@ Proof.
   rewrite (Z.mod_small u) by lia.
   destruct (Z.ltb_spec u 9223372036854775808).
   - apply Z.mod_small. lia.
-  - rewrite <- (Z.mod_add _ 1) by lia. apply Z.mod_small. lia.
+  - rewrite <- (Z.mod_add _ 1) by lia.
+    replace (u - 18446744073709551616 + 1 * 18446744073709551616) with u by lia.
+    apply Z.mod_small. lia.
 Qed.
 
 Lemma to_i64_range : forall u, - two63 <= to_i64 u < two63.
@@ -329,16 +331,16 @@ Proof.
       try (apply wf_fvarint; unfold max_fnum; lia).
     constructor. }
   rewrite parse_emit by exact Hwf. f_equal.
-  destruct r as [v s1 vt vl sq tt pk0 s2 d u]. cbn [p_unknown] in Hu. subst u.
+  destruct r as [v s1 vt vl sq tl pk0 s2 d u]. cbn [p_unknown] in Hu. subst u.
   cbn [p_vtype p_seq p_ttl] in Hvt, Hsq, Htt.
   unfold to_fields. cbn [p_value p_sigv1 p_vtype p_validity p_seq p_ttl p_pubkey p_sigv2 p_data p_unknown].
   assert (Evt : forall x, vt = Some x -> to_i32 (to_u64 x) = x)
     by (intros x Hx; apply to_i32_to_u64; apply Hvt; exact Hx).
   assert (Esq : forall x, sq = Some x -> to_u64 x = x)
     by (intros x Hx; apply to_u64_nonneg; apply Hsq; exact Hx).
-  assert (Ett : forall x, tt = Some x -> to_u64 x = x)
+  assert (Ett : forall x, tl = Some x -> to_u64 x = x)
     by (intros x Hx; apply to_u64_nonneg; apply Htt; exact Hx).
-  destruct v, s1, vt as [vt|], vl, sq as [sq|], tt as [tt|], pk0, s2, d;
+  destruct v, s1, vt as [vt|], vl, sq as [sq|], tl as [tl|], pk0, s2, d;
     cbn [fbytes fvarint app fold_left set_field Z.eqb Pos.eqb pb_empty
          p_value p_sigv1 p_vtype p_validity p_seq p_ttl p_pubkey p_sigv2 p_data p_unknown];
     rewrite ?(Evt _ eq_refl), ?(Esq _ eq_refl), ?(Ett _ eq_refl); reflexivity.
